@@ -25,6 +25,14 @@ type Clause struct {
 	Where string
 }
 
+// SpawnSpec: "spawns[Cxx] f, g": every goroutine the function starts runs (directly, or as the
+// body of a function literal) only these functions of the repository.
+type SpawnSpec struct {
+	Props []string
+	Names []string
+	Where string
+}
+
 type LoopSpec struct {
 	Split     *Clause // case split on an expression over lo..hi (complete: split-cover obligation)
 	SplitLo, SplitHi int
@@ -63,6 +71,7 @@ type Contract struct {
 	FreshResult bool
 	Sequential bool   // invariant conjuncts are proved in order, each assuming the earlier ones
 	BitsDef bool      // give bits()/sbits() at symbolic positions their byte-arithmetic definition (default: range only)
+	Spawns      []*SpawnSpec // stages the function may start as goroutines (structural obligation spawn-wiring)
 	RenamedFrom string // the name the function had on the unchanged tree, when the contract was rebound
 	Opaque  []string  // predicates whose definitions are hidden except in clauses marked {reveal P}
 	Uses    []*Clause // lemma instantiations assumed at entry (each must be a proved lemma/axiom instance)
@@ -170,7 +179,7 @@ var propRe = regexp.MustCompile(`^\[([A-Za-z0-9, ]+)\]\s*`)
 
 var keywords = map[string]bool{
 	"func": true, "type": true, "requires": true, "ensures": true, "modifies": true, "invariant": true,
-	"decreases": true, "loop": true, "mode": true, "inline": true, "opaque": true, "bitsdef": true, "sequential": true, "assume-contract": true, "pure": true,
+	"decreases": true, "loop": true, "mode": true, "inline": true, "opaque": true, "bitsdef": true, "spawns": true, "sequential": true, "assume-contract": true, "pure": true,
 	"let": true, "define": true, "declare": true, "axiom": true, "lemma": true, "auxlemma": true, "owned": true, "model": true,
 	"global": true, "nosafety": true, "assert": true, "split": true, "guarded_by": true, "ghostparam": true,
 	"fresh-result": true, "use": true, "exports": true, "rawaxiom": true, "stamp": true, "defpred": true, "recfun": true, "arith": true, "atcall": true, "noterm": true,
@@ -551,6 +560,24 @@ func (lib *SpecLib) loadFile(path, pkgPath string) error {
 					cur.Opaque = append(cur.Opaque, p)
 				}
 			}
+		case "spawns":
+			if cur == nil {
+				return fmt.Errorf("%s: spawns outside func", it.where)
+			}
+			sp := &SpawnSpec{Where: it.where}
+			rest := it.rest
+			if m := propRe.FindStringSubmatch(rest); m != nil {
+				for _, p := range strings.Split(m[1], ",") {
+					sp.Props = append(sp.Props, strings.TrimSpace(p))
+				}
+				rest = rest[len(m[0]):]
+			}
+			for _, n := range strings.Split(rest, ",") {
+				if n = strings.TrimSpace(n); n != "" {
+					sp.Names = append(sp.Names, n)
+				}
+			}
+			cur.Spawns = append(cur.Spawns, sp)
 		case "bitsdef":
 			cur.BitsDef = true
 		case "sequential":
